@@ -174,6 +174,9 @@ func Eq(a, b Term) Term {
 	if a.S == b.S {
 		return TTrue
 	}
+	if strings.HasPrefix(a.S, "strlit_") && strings.HasPrefix(b.S, "strlit_") && !strings.ContainsAny(a.S+b.S, " (") {
+		return TFalse // distinct string literals are distinct constants
+	}
 	return Term{"(= " + a.S + " " + b.S + ")", SBool}
 }
 
